@@ -174,13 +174,21 @@ def check_graph(g0, payload='plain', props=PROPS):
     fails = []
     scfg, blocks = make_scfg(g0, payload)
     t0 = time.process_time()
+    from rtc import wrappers
+    import contracts  # noqa
+    wrappers.install()
     for si, stage in enumerate(STAGES):
+        del wrappers.FAILS[:]
         try:
             run_stage(scfg, stage)
         except Exception as e:   # C02: any exception is a failure
             fails.append({'prop': 'C02', 'stage': stage, 'kind': 'raise:' + type(e).__name__,
                           'detail': list(frames(e)) + [str(e)[:120]]})
             break
+        for wf in wrappers.FAILS[:3]:
+            if 'C14' in props or True:
+                fails.append({'prop': 'C14', 'stage': stage, 'kind': 'call-contract:%s:%s' % (wf['function'], wf['clause'].split(':')[0][:40]),
+                              'detail': [wf['clause'][:200], str(wf['args'])[:300]]})
         if time.process_time() - t0 > CPU_LIMIT_S:
             fails.append({'prop': 'C02', 'stage': stage, 'kind': 'cpu-time', 'detail': []})
             break
@@ -234,6 +242,9 @@ def work_chunk(args):
             f['n'] = n
             f['idx'] = idx
             out['fails'].append(f)
+    from rtc import wrappers
+    out['call_counts'] = dict(wrappers.COUNTS)
+    wrappers.COUNTS.clear()
     return out
 
 
@@ -258,6 +269,9 @@ def work_random(args):
             f['n'] = n
             f['idx'] = None
             out['fails'].append(f)
+    from rtc import wrappers
+    out['call_counts'] = dict(wrappers.COUNTS)
+    wrappers.COUNTS.clear()
     return out
 
 
@@ -286,5 +300,9 @@ if __name__ == '__main__':
             stat[k] += 1
             ex.setdefault(k, (f['graph'], f['detail']))
     print('closed graphs', closed, 'time', round(time.time() - t0, 1))
+    cc = collections.Counter()
+    for r in res:
+        cc.update(r.get('call_counts', {}))
+    print(dict(cc))
     for k, v in sorted(stat.items()):
         print(k, v, ex[k])
